@@ -48,7 +48,26 @@ Fixpoint sibling_offsets (start : N) (cs : list item) : list N :=
   | c :: r => start :: sibling_offsets (start + count_all c) r
   end.
 
-Definition nth_opt (l : list N) (i : nat) : option N := nth_error l i.
+(** children of one parent: [offs] is the remaining tail of the parent's child_offsets, [prev]
+    the id link handed to the next child, [idx] the running id_index.  The child's own id comes
+    from the running [idx] (as in the code); the links come from the offsets. *)
+Section WriteChildren.
+  Variable idat : N -> N.
+  Variable W : item -> N -> option N -> option N -> N -> list rec * N.
+  Fixpoint write_children_with (cs : list item) (offs : list N) (prev : option N) (idx : N) {struct cs}
+    : list rec * N :=
+    match cs with
+    | [] => ([], idx)
+    | c :: r =>
+        let child_id := idat idx in
+        let cnext := option_map idat (hd_error (tl offs)) in
+        let '(recs1, idx1) := W c child_id prev cnext (idx + 1) in
+        let '(recs2, idx2) := write_children_with r (tl offs) (option_map idat (hd_error offs)) idx1 in
+        (recs1 ++ recs2, idx2)
+    end.
+End WriteChildren.
+
+Definition last_opt (l : list N) : option N := match rev l with [] => None | x :: _ => Some x end.
 
 Section Emit.
   Variable base : N.    (* all_ids[0] *)
@@ -60,43 +79,24 @@ Section Emit.
     match it with
     | Item lbl o cs =>
         let offs := sibling_offsets idx cs in
-        let first := match offs with [] => None | f :: _ => Some (idat f) end in
-        let last := match rev offs with [] => None | l :: _ => Some (idat l) end in
-        let fix write_children (cs : list item) (i : nat) (idx : N) {struct cs} : list rec * N :=
-          match cs with
-          | [] => ([], idx)
-          | c :: r =>
-              let child_id := idat idx in
-              let cprev := match i with O => None | S j => option_map idat (nth_opt offs j) end in
-              let cnext := option_map idat (nth_opt offs (S i)) in
-              let '(recs1, idx1) := write_item c child_id item_id cprev cnext (idx + 1) in
-              let '(recs2, idx2) := write_children r (S i) idx1 in
-              (recs1 ++ recs2, idx2)
-          end in
-        let '(crecs, idx') := write_children cs O idx in
+        let first := option_map idat (hd_error offs) in
+        let last := option_map idat (last_opt offs) in
+        let '(crecs, idx') :=
+          write_children_with idat (fun c cid p n i => write_item c cid item_id p n i) cs offs None idx in
         ({| r_id := item_id; r_label := lbl; r_parent := parent; r_prev := prev; r_next := next;
             r_first := first; r_last := last; r_count := item_count it |} :: crecs, idx')
     end.
 End Emit.
 
 (** root: (first, last, count) of the /Outlines dictionary and all item records.
-    The root gets id [root]; item ids are [root+1 ...]. *)
+    The root gets id [root]; reserved item ids are [root+1 ...]. *)
 Definition write_tree (root : N) (items : list item) : option N * option N * Z * list rec :=
   let base := root + 1 in
   let offs := sibling_offsets 0 items in
-  let first := match offs with [] => None | f :: _ => Some (base + f) end in
-  let last := match rev offs with [] => None | l :: _ => Some (base + l) end in
-  let fix go (cs : list item) (i : nat) (idx : N) {struct cs} : list rec :=
-    match cs with
-    | [] => []
-    | c :: r =>
-        let item_id := base + idx in
-        let prev := match i with O => None | S j => option_map (N.add base) (nth_opt offs j) end in
-        let next := option_map (N.add base) (nth_opt offs (S i)) in
-        let '(recs, idx1) := write_item base c item_id root prev next (idx + 1) in
-        recs ++ go r (S i) idx1
-    end in
-  (first, last, Z.of_N (count_visible_list items), go items O 0).
+  let '(recs, _) :=
+    write_children_with (idat base) (fun c cid p n i => write_item base c cid root p n i) items offs None 0 in
+  (option_map (idat base) (hd_error offs), option_map (idat base) (last_opt offs),
+   Z.of_N (count_visible_list items), recs).
 
 (** * §12.3.3 navigability, as a checker over emitted dictionaries *)
 Fixpoint find (id : N) (rs : list rec) : option rec :=
@@ -112,31 +112,37 @@ Definition oZ_eqb := option_eqb Z.eqb.
     descendants visible if the item were opened; no children -> absent *)
 Definition spec_count (it : item) : option Z := item_count it.
 
-(** walking /First and /Next from [cur] reproduces the authored sibling list [cs] whose
-    parent is [parent]; [prev] is the id /Prev must name; returns the id of the last item *)
+(** walking /Next from [cur] reproduces the authored sibling list [cs]; [prev] is the id /Prev of
+    the next item must name; returns the id of the last item of the chain ([prev] when empty) *)
+Section NavList.
+  Variable nav : item -> N -> option N -> option (option N).
+  Fixpoint nav_list_with (cs : list item) (cur prev : option N) {struct cs} : option (option N) :=
+    match cs, cur with
+    | [], None => Some prev
+    | [], Some _ => None
+    | _ :: _, None => None
+    | c :: t, Some cid =>
+        match nav c cid prev with
+        | None => None
+        | Some nxt => nav_list_with t nxt (Some cid)
+        end
+    end.
+End NavList.
+
+(** [nav_item rs it id parent prev = Some nx]: the dictionary [id] carries the authored label, names
+    [parent] as /Parent and [prev] as /Prev, has the Table-153 /Count, its /First.../Next chain
+    reproduces the authored children with consistent /Prev and /Parent, /Last names the last child;
+    [nx] is its /Next link *)
 Fixpoint nav_item (rs : list rec) (it : item) (id parent : N) (prev : option N) {struct it} : option (option N) :=
-  (* returns Some next_link when the item at [id] is consistent with [it] *)
   match it with
   | Item lbl o cs =>
       match find id rs with
       | None => None
       | Some r =>
-          let fix nav_list (cs : list item) (cur : option N) (prev : option N) {struct cs} : option (option N) :=
-            (* returns Some last_id when the chain starting at cur matches cs *)
-            match cs, cur with
-            | [], None => Some prev
-            | [], Some _ => None
-            | _ :: _, None => None
-            | c :: t, Some cid =>
-                match nav_item rs c cid id prev with
-                | None => None
-                | Some nxt => nav_list t nxt (Some cid)
-                end
-            end in
           if (r_label r =? lbl) && (r_parent r =? parent) && oN_eqb (r_prev r) prev
              && oZ_eqb (r_count r) (spec_count it)
           then
-            match nav_list cs (r_first r) None with
+            match nav_list_with (fun c cid p => nav_item rs c cid id p) cs (r_first r) None with
             | Some lst => if oN_eqb (r_last r) lst then Some (r_next r) else None
             | None => None
             end
@@ -144,21 +150,9 @@ Fixpoint nav_item (rs : list rec) (it : item) (id parent : N) (prev : option N) 
       end
   end.
 
-Fixpoint nav_list_top (rs : list rec) (root : N) (cs : list item) (cur prev : option N) : option (option N) :=
-  match cs, cur with
-  | [], None => Some prev
-  | [], Some _ => None
-  | _ :: _, None => None
-  | c :: t, Some cid =>
-      match nav_item rs c cid root prev with
-      | None => None
-      | Some nxt => nav_list_top rs root t nxt (Some cid)
-      end
-  end.
-
 (** the whole outline is navigable as authored *)
 Definition navigable (root : N) (items : list item) (first last : option N) (count : Z) (rs : list rec) : bool :=
-  match nav_list_top rs root items first None with
+  match nav_list_with (fun c cid p => nav_item rs c cid root p) items first None with
   | Some lst => oN_eqb last lst && (count =? Z.of_N (count_visible_list items))%Z
   | None => false
   end.
@@ -183,3 +177,28 @@ Definition outline_code (c : list item * N * option N * option N * Z * list rec)
   let '(mf, ml, mc, mrs) := write_tree root items in
   code_of (oN_eqb mf first && oN_eqb ml last && (mc =? count)%Z && list_eqb rec_eqb (sort_recs mrs) (sort_recs rs))
           (navigable root items first last count rs).
+
+(** * destinations: every item resolves to the authored page (12.3.2.2: the first element of an
+    explicit destination is an indirect reference to the page object) *)
+Inductive wdest := WNone | WInt (n : Z) | WRef (page_index : option N) | WOther.
+
+Definition dest_resolves (authored : option N) (w : wdest) : bool :=
+  match authored, w with
+  | None, WNone => true
+  | Some p, WRef (Some q) => p =? q
+  | _, _ => false
+  end.
+
+(** the recorded deviation: the authored 0-based page number written as a bare integer *)
+Definition dest_is_bare_page_number (authored : option N) (w : wdest) : bool :=
+  match authored, w with
+  | Some p, WInt n => (n =? Z.of_N p)%Z
+  | _, _ => false
+  end.
+
+Definition dest_code (c : list (N * option N * wdest)) : N :=
+  let bad := filter (fun '(_, a, w) => negb (dest_resolves a w)) c in
+  match bad with
+  | [] => 0
+  | _ => 2 + (if forallb (fun '(_, a, w) => dest_is_bare_page_number a w) bad then 4 else 0)
+  end.
